@@ -209,6 +209,10 @@ def write_evidence(prop, tier, seed, spec, per, extra, wall, nviol, assumptions)
     tmp = os.path.join(evdir, prop + ".json.tmp")
     json.dump(ev, open(tmp, "w"), indent=1)
     os.replace(tmp, os.path.join(evdir, prop + ".json"))
+    # keep a per-tier copy as well (the main file is rewritten by every run)
+    tdir = os.path.join(evdir, "by_tier", tier)
+    os.makedirs(tdir, exist_ok=True)
+    shutil.copy(os.path.join(evdir, prop + ".json"), os.path.join(tdir, prop + ".json"))
 
 
 def run_property(prop, tier, seed):
@@ -246,7 +250,8 @@ def run_property(prop, tier, seed):
         all_khits += khits
         for (h, failed) in viol:
             all_viol.append((g, h, failed))
-    if spec.get("post") and not errors:
+    if spec.get("post"):
+        # certificates / audits do not depend on the harness verdicts
         spec["post"](ctx)
         errors += [e for e in ctx["errors"] if e not in errors]
     # 2. violations: replay before reporting
